@@ -40,7 +40,7 @@ def lines(ctx, name):
 
 
 def collect(ctx, tag):
-    cases = {l.split("|")[0]: l for l in lines(ctx, "cases.txt")}
+    cases = {l.split("|")[0]: l for l in lines(ctx, "cases.txt") + lines(ctx, "ctn_cases.txt")}
     hist = {l.split("|")[0]: l for l in lines(ctx, "history.txt")}
     for l in lines(ctx, "oracle.txt"):
         f = l.split("|", 3)
@@ -52,7 +52,7 @@ def collect(ctx, tag):
                       {"scenario": sid, "case": c[:6000], "search": tag,
                        "history_before_the_shared_transaction": hist.get(sid, "")[:20000],
                        "history_format": "id|where the older savepoint (handle 900) is taken, after how many earlier transactions read transactions are begun (they stay live until after the shared transaction ended), after how many grants of the durable commit a Savepoint is dropped on another thread, (thread, grants) of a thread that is stopped until the others finished|earlier transactions: D durable / N non-durable : table.key=value (put) table.key- (delete)",
-                       "format": "id|kind|pre-existing savepoint|end (0 durable, 1 non-durable, 2 abort)|programs per thread (O open, P put, D delete, C close, S savepoint, R drop savepoint; table ids >= 100 are multimap; savepoint handles 500..899 are persistent_savepoint() calls)|executed log tid:label:tables-mutex-held. "
+                       "format": "id|kind|pre-existing savepoint|end (0 durable, 1 non-durable, 2 abort)|programs per thread (O open, P put, D delete, C close, S savepoint, R drop savepoint; table ids >= 100 are multimap; savepoint handles 500..899 are persistent_savepoint() calls; contention families ctn-*: M<kind>.<table>.<a>.<b> table operation (kinds 0 insert 1 remove 2 pop_first 3 pop_last 4 retain 5 get_mut 6 entry.and_modify 7 entry.or_insert 8 extract_if 9-11 multimap insert/remove/remove_all), H<kind> list_tables / list_multimap_tables / stats / failing open_table / list_persistent_savepoints, L<table> delete_table; in their logs X<table>.<effect>.<a>.<b>.<sections m=merged b=pushed under the mutex> is the measured form of the operation, flags = tables/freed_pages/system_tables mutex held, B = the granted thread blocked on a held mutex, W = it got the mutex later and ran the step)|executed log tid:label:tables-mutex-held. "
                                  "kind cgapr-sp<i>-r<js>-g<g> / hist-*: earlier whole transactions (regenerated from the seed), older savepoint taken before the i-th, read transactions begun after the js-th held live, a Savepoint dropped after g grants of the durable commit; cgaps-...-g<g>-d<d>-k<k>: the same, but the dropping thread gets d grants (entering Savepoint::drop included: 2 = stopped between its two tracker sections), then the committer k more, then the drop finishes; psp-park-n<n>-a<a>-k<k>: thread a stopped after k grants until the others finished",
                        "how_to_replay": "harness bin c16: VERIF_SEED=%d c16 %s" % (ctx.seed, sid)})
     return cases
